@@ -1020,6 +1020,13 @@ let handle_iter line =
       end;
       let mags_at (qxx : q list) (quu : q list) (qvv : q list) =
         mag_resid ip (Array.of_list (List.map float_of_q qxx)) (Array.of_list (List.map float_of_q quu)) (Array.of_list (List.map float_of_q qvv)) miu in
+      (* a trial point x + s dx (u + s du, v + s dv) is formed in doubles: when the operands cancel (e.g. multipliers of size 1e16 of two
+         dependent equality rows stepping to size 10) the point the implementation evaluates differs from the exact one by an ulp of
+         the OPERANDS, i.e. by many ulps of the result. Trial points are not recorded: a residual at such a point is comparable only
+         when that propagated rounding (2^-50 of the residual magnitudes taken at |x| + s|dx|, ...) stays below the band in use *)
+      let cancelling sj at_total =
+        let pre a d = Array.mapi (fun i t -> fabs t +. sj *. fabs d.(i)) a in
+        0x1p-50 *. mag_total (mag_resid ip (pre ax adx) (pre au adu) (pre av adv) miu) > 1e-12 *. at_total in
       (* stage 2 *)
       if not !stop then begin
         if not (rel_close (q_of_float (r0 *. r0)) (float_of_q tr.t_r0sq) 1e-12) then mism "r0" (Printf.sprintf "model=%h impl=%h" (qsqrt_f tr.t_r0sq) r0);
@@ -1033,6 +1040,7 @@ let handle_iter line =
           let mg = mag_total (mags_at tx tu tv) in
           let margin = qsqrt_f (res2 rj) -. (1.0 -. alpha *. sj) *. r0 in
           if fabs margin <= 1e-12 *. (mg +. r0) then amb "stage2"
+          else if cancelling sj (mg +. r0) then amb "cancelling-step"
           else mism "stage2-count" (Printf.sprintf "model accepts after %d shrinks, impl after %d (max_lsearch_iters=%d): residual - (1 - alpha s) r0 = %g at s=%h, r0=%h alpha=%h" k2m it2 ip.ip_maxls margin sj r0 alpha)
         end else begin
           incr it_exact_counts;
@@ -1040,12 +1048,17 @@ let handle_iter line =
         end
       end;
       let st_after = ref None in
+      let status_model = ref (B.int_of_big_int st'.i_status) in
       if not !stop then begin
-        let res_m = st'.i_res in
+        let accepted = not (km = 3 || exitk = 3) in
+        (* accepted step: the new state is recorded and compared on its own (bit-exact mirror + the model's point within ulps of the
+           operands); eta / residual / exit 5 / status are then what update() / done() of the model give AT THE RECORDED STATE (the
+           exact x + s dx may differ from it by many ulps of the result when the operands cancel) *)
+        let qx' = if accepted && after_fin then qvec x' else st'.i_x and qu' = if accepted && after_fin then qvec u' else st'.i_u
+        and qv' = if accepted && after_fin then qvec v' else st'.i_v in
+        let res_m = if accepted && after_fin then upd prog ip.ip_mufx par.p_miu qx' qu' qv' res_before else st'.i_res in
         let cmp_after tag =
-          let xm = List.map float_of_q st'.i_x and um = List.map float_of_q st'.i_u and vm = List.map float_of_q st'.i_v in
-          ignore (xm, um, vm);
-          let mg = mags_at st'.i_x st'.i_u st'.i_v in
+          let mg = mags_at qx' qu' qv' in
           let (em, _, _, _) = mg in
           incr compared;
           if not (qle (qabs (res_m.s_eta -/ q_of_float eta')) (q_of_float (1e-11 *. em +. 1e-300))) then
@@ -1063,6 +1076,7 @@ let handle_iter line =
             let rj = upd prog ip.ip_mufx par.p_miu tx tu tv res_before in
             let mg = mag_total (mags_at tx tu tv) in
             if fabs (qsqrt_f (res2 rj) -. r0) <= 1e-12 *. (mg +. r0) then amb "revert"
+            else if cancelling sj (mg +. r0) then amb "cancelling-step"
             else begin
               if revert_test (res2 rj) tr.t_r0sq then incr it_reverted else incr it_stale3;
               (* the tolerance is that of the trial point when the numbers are its *)
@@ -1087,27 +1101,30 @@ let handle_iter line =
           cmpv "state-v" st'.i_v v' (Array.mapi (fun i t -> fabs t +. s2 *. fabs adv.(i)) av) (float_of_int (it1 + it2 + 8) *. 0x1p-50);
           cmp_after "after";
           st_after := Some res_m;
+          if exitk = 5 then status_model := B.int_of_big_int (model_done prog qx' res_m.s_eta res_m.s_rdual res_m.s_rprim par.p_eps par.p_eps2);
           if exitk = 4 then (if km <> 4 then mism "exit-kind" (Printf.sprintf "model=%d impl=4" km))
           else if km <> exitk then begin
             (* 0 against 5: the `very precise convergence` test; is one of the three differences within rounding of epsilon0? *)
-            let (em', rdm', rpm', _) = mags_at st'.i_x st'.i_u st'.i_v in
+            let (em', rdm', rpm', _) = mags_at qx' qu' qv' in
             let e0 = ip.ip_eps0 in
             let d1 = float_of_q (eta_before -/ res_m.s_eta) and d2 = fnorm2 (Array.of_list rd) -. qsqrt_f (sumsq res_m.s_rdual)
             and d3 = fnorm2 (Array.of_list rp) -. qsqrt_f (sumsq res_m.s_rprim) in
             let band d mag = fabs (d -. e0) <= 1e-13 *. mag in
+            let km_at = if precise_test eta_before res_m.s_eta (sumsq qrd) (sumsq res_m.s_rdual) (sumsq qrp) (sumsq res_m.s_rprim) par.p_eps0 then 5 else 0 in
             if band d1 (em_b +. em') || band d2 (fnorm2 rdm_b +. fnorm2 rdm') || band d3 (fnorm2 rpm_b +. fnorm2 rpm') then amb "precise"
+            else if km_at = exitk then amb "cancelling-step"
             else mism "exit-kind" (Printf.sprintf "model=%d impl=%d eps0=%g d_eta=%g d_rdual=%g d_rprim=%g" km exitk e0 d1 d2 d3)
           end
         end;
         (* status after the pass *)
         if !st_after <> None && km = exitk then begin
           incr it_full;
-          let sm = B.int_of_big_int st'.i_status in
+          let sm = !status_model in
           if km = 0 || km = 4 then (if sm <> status' then mism "status" (Printf.sprintf "model=%d impl=%d exit=%d" sm status' km))
           else begin
-            let xf = Array.of_list (List.map float_of_q st'.i_x) in
-            let r = st'.i_res in
-            if done_ambiguous ip xf (float_of_q r.s_eta) (qsqrt_f (sumsq r.s_rdual)) (qsqrt_f (sumsq r.s_rprim)) (mags_at st'.i_x st'.i_u st'.i_v) then amb "status"
+            let xf = Array.of_list (List.map float_of_q qx') in
+            let r = res_m in
+            if done_ambiguous ip xf (float_of_q r.s_eta) (qsqrt_f (sumsq r.s_rdual)) (qsqrt_f (sumsq r.s_rprim)) (mags_at qx' qu' qv') then amb "status"
             else begin incr it_status_dec; if sm <> status' then mism "status" (Printf.sprintf "model=%d impl=%d exit=%d eta=%g |rdual|=%g |rprim|=%g" sm status' km (float_of_q r.s_eta) (qsqrt_f (sumsq r.s_rdual)) (qsqrt_f (sumsq r.s_rprim))) end
           end
         end
